@@ -5,7 +5,7 @@
 //! Duration / Instant are mathematical naturals (nanoseconds) in the stubs: view(d) = d.as_nanos(),
 //! view(i) = nanoseconds since a fixed base instant.  Inputs stay inside the range where the real
 //! operations do not overflow (the stub's stated assumption).
-use crate::{ensure, mutant, Cx, Rng};
+use crate::{ensure, hit, mutant, Cx, Rng};
 use bytes::{Buf, BufMut, Bytes, BytesMut};
 use std::cmp::Ordering;
 use std::time::Duration;
@@ -248,31 +248,31 @@ pub fn run(cx: &mut Cx) {
     }
 
     // =============================================================== bytes::Bytes
-    cx.check_in(&["hosttcp_bytes.rs", "netclose_bytes.rs"], "Bytes::new", |_| {
+    cx.check_in(&["hosttcp_bytes.rs", "netclose_bytes.rs", "nettcp_bytes.rs", "nettable_ext.rs"], "Bytes::new", |_| {
         ensure!(bview(&Bytes::new())?.is_empty(), "Bytes::new() not empty");
         Ok(())
     });
-    cx.check_in(&["hosttcp_bytes.rs", "udp_bytes.rs"], "Bytes::copy_from_slice", |rng| {
+    cx.check_in(&["hosttcp_bytes.rs", "udp_bytes.rs", "nettcp_bytes.rs"], "Bytes::copy_from_slice", |rng| {
         let d = rng.bytes(40);
         ensure!(bview(&Bytes::copy_from_slice(&d))? == d, "copy_from_slice({d:?})");
         Ok(())
     });
-    cx.check_in(&["hosttcp_bytes.rs", "netclose_bytes.rs", "udp_bytes.rs"], "Bytes::len", |rng| {
+    cx.check_in(&["hosttcp_bytes.rs", "netclose_bytes.rs", "udp_bytes.rs", "nettcp_bytes.rs", "nettable_ext.rs"], "Bytes::len", |rng| {
         let b = gen_bytes(rng);
         ensure!(b.len() == bview(&b)?.len(), "len");
         Ok(())
     });
-    cx.check_in(&["hosttcp_bytes.rs", "netclose_bytes.rs", "udp_bytes.rs"], "Bytes::is_empty", |rng| {
+    cx.check_in(&["hosttcp_bytes.rs", "netclose_bytes.rs", "udp_bytes.rs", "nettcp_bytes.rs"], "Bytes::is_empty", |rng| {
         let b = if rng.chance(1, 4) { Bytes::new() } else { gen_bytes(rng) };
         ensure!(b.is_empty() == (bview(&b)?.len() == 0), "is_empty");
         Ok(())
     });
-    cx.check_in(&["hosttcp_bytes.rs", "netclose_bytes.rs", "udp_bytes.rs"], "<Bytes as Clone>::clone", |rng| {
+    cx.check_in(&["hosttcp_bytes.rs", "netclose_bytes.rs", "udp_bytes.rs", "nettcp_bytes.rs"], "<Bytes as Clone>::clone", |rng| {
         let b = gen_bytes(rng);
         ensure!(bview(&b.clone())? == bview(&b)?, "clone differs");
         Ok(())
     });
-    cx.check("udp_bytes.rs::<Bytes as Deref>::deref", |rng| {
+    cx.check_in(&["udp_bytes.rs", "nettcp_bytes.rs"], "<Bytes as Deref>::deref", |rng| {
         let b = gen_bytes(rng);
         let by_index: Vec<u8> = (0..b.len()).map(|i| b[i]).collect();
         let r: &[u8] = &b;
@@ -319,23 +319,109 @@ pub fn run(cx: &mut Cx) {
         ensure!(Buf::remaining(&s) == s.len(), "remaining of a slice");
         Ok(())
     });
-    // =============================================================== bytes::BytesMut (netclose_bytes.rs)
-    cx.check("netclose_bytes.rs::BytesMut::new", |_| {
+    // Bytes equality is equality of contents (nettcp_bytes.rs eq_spec; nettable_ext.rs: axiom_bytes_ext makes a
+    // Bytes *be* its content, `eq` and `clone` are then spec equality)
+    for name in ["nettcp_bytes.rs::<Bytes as PartialEqSpecImpl>::eq_spec", "nettable_ext.rs::axiom_bytes_ext + <Bytes as PartialEq>::eq + <Bytes as Clone>::clone"] {
+        cx.want(&["equal-shared", "equal-distinct-storage", "different"]).check(name, |rng| {
+            let a = gen_bytes(rng);
+            let b = match rng.below(4) {
+                0 => {
+                    hit("equal-shared");
+                    a.clone()
+                }
+                1 => {
+                    hit("equal-distinct-storage");
+                    Bytes::from(bview(&a)?) // same content, other allocation
+                }
+                2 => {
+                    let mut v = bview(&a)?;
+                    if v.is_empty() { v.push(1) } else { let i = rng.below(v.len()); v[i] ^= 1 << rng.below(8); }
+                    Bytes::from(v)
+                }
+                _ => gen_bytes(rng),
+            };
+            let same = bview(&a)? == bview(&b)?;
+            if !same {
+                hit("different");
+            }
+            ensure!((a == b) == same, "{a:?} == {b:?} is {}, contents equal: {same}", a == b);
+            ensure!(a.clone() == a, "a clone is not equal to its original");
+            Ok(())
+        });
+    }
+    cx.check("nettable_ext.rs::Bytes::copy_from_slice<S: ByteSource> (from &[u8] and from &Bytes)", |rng| {
+        let d = rng.bytes(40);
+        ensure!(bview(&Bytes::copy_from_slice(&d[..]))? == d, "copy_from_slice(&[u8])");
+        let src = gen_bytes(rng);
+        ensure!(bview(&Bytes::copy_from_slice(&src))? == bview(&src)?, "copy_from_slice(&Bytes) through deref");
+        Ok(())
+    });
+
+    // =============================================================== bytes::BytesMut (netclose_bytes.rs, nettcp_bytes.rs)
+    fn mview(m: &BytesMut) -> Result<Vec<u8>, String> {
+        let v: Vec<u8> = m.iter().copied().collect();
+        ensure!(v.len() == m.len() && m.chunk() == &v[..], "BytesMut observers disagree");
+        Ok(v)
+    }
+    cx.check("nettcp_bytes.rs::<BytesMut as Deref>::deref", |rng| {
+        let m = gen_bytes_mut(rng);
+        let by_index: Vec<u8> = (0..m.len()).map(|i| m[i]).collect();
+        let r: &[u8] = &m;
+        ensure!(r.to_vec() == by_index && r == m.as_ref(), "deref");
+        Ok(())
+    });
+    cx.want(&["empty-ext", "grow"]).check("nettcp_bytes.rs::BytesMut::extend_from_slice", |rng| {
+        let mut m = gen_bytes_mut(rng);
+        let pre = mview(&m)?;
+        let ext = if rng.chance(1, 5) { vec![] } else { rng.bytes(200) };
+        hit(if ext.is_empty() { "empty-ext" } else { "grow" });
+        m.extend_from_slice(&ext);
+        let exp: Vec<u8> = [&pre[..], &ext[..]].concat();
+        ensure!(mview(&m)? == exp, "extend_from_slice: {} + {} bytes -> {} bytes", pre.len(), ext.len(), m.len());
+        Ok(())
+    });
+    cx.check("nettcp_bytes.rs::BytesMut::split_to", |rng| {
+        let mut m = gen_bytes_mut(rng);
+        let pre = mview(&m)?;
+        let at = rng.range(0, pre.len()); // requires at <= len
+        let r = m.split_to(at);
+        ensure!(mview(&r)? == pre[..at].to_vec() && mview(&m)? == pre[at..].to_vec(), "split_to({at}) on {pre:?} -> {:?} / {:?}", mview(&r)?, mview(&m)?);
+        // the two halves are independent buffers afterwards
+        let mut r = r;
+        r.extend_from_slice(b"xyz");
+        ensure!(mview(&m)? == pre[at..].to_vec(), "writing to the split-off head changed the tail");
+        Ok(())
+    });
+    cx.check("nettcp_bytes.rs::BytesMut::advance", |rng| {
+        let mut m = gen_bytes_mut(rng);
+        let pre = mview(&m)?;
+        let cnt = rng.range(0, pre.len()); // requires cnt <= len
+        m.advance(cnt);
+        ensure!(mview(&m)? == pre[cnt..].to_vec(), "advance({cnt}) on {pre:?} -> {:?}", mview(&m)?);
+        Ok(())
+    });
+    cx.check("nettcp_bytes.rs::BytesMut::freeze", |rng| {
+        let m = gen_bytes_mut(rng);
+        let pre = mview(&m)?;
+        ensure!(bview(&m.freeze())? == pre, "freeze changed the content");
+        Ok(())
+    });
+    cx.check_in(&["netclose_bytes.rs", "nettcp_bytes.rs"], "BytesMut::new", |_| {
         let m = BytesMut::new();
         ensure!(m.len() == 0 && m.is_empty() && m[..].is_empty(), "BytesMut::new() not empty");
         Ok(())
     });
-    cx.check("netclose_bytes.rs::BytesMut::len", |rng| {
+    cx.check_in(&["netclose_bytes.rs", "nettcp_bytes.rs"], "BytesMut::len", |rng| {
         let m = gen_bytes_mut(rng);
         ensure!(m.len() == m.iter().count() && m.len() == m[..].len(), "len");
         Ok(())
     });
-    cx.check("netclose_bytes.rs::BytesMut::is_empty", |rng| {
+    cx.check_in(&["netclose_bytes.rs", "nettcp_bytes.rs"], "BytesMut::is_empty", |rng| {
         let m = if rng.chance(1, 4) { BytesMut::new() } else { gen_bytes_mut(rng) };
         ensure!(m.is_empty() == (m.iter().count() == 0), "is_empty");
         Ok(())
     });
-    cx.check("netclose_bytes.rs::BytesMut::clear", |rng| {
+    cx.check_in(&["netclose_bytes.rs", "nettcp_bytes.rs"], "BytesMut::clear", |rng| {
         let mut m = gen_bytes_mut(rng);
         m.clear();
         ensure!(m.iter().count() == 0 && m.len() == 0, "clear left bytes");
